@@ -404,4 +404,112 @@ Section HistoryProofs.
       - exists zs. split; [rewrite Ez; congruence|]. eapply Forall_impl; [|exact Hzs]. intros z. apply skel_zero_of. apply skel_sym. exact Hsk.
     Qed.
   End Blocked.
+
+  (* ---------- repeated backward: every further call adds the same contributions ---------- *)
+  Lemma slot_eq_grad (s s' : slot) : set_grad s None = set_grad s' None -> s_grad s = None -> s_grad s' = None -> s = s'.
+  Proof. destruct s, s'; simpl. intros [= -> -> ->] -> ->. reflexivity. Qed.
+
+  Lemma sg_gclean_eq (ops ops' : ops_t) : sg ops = sg ops' -> gclean ops -> gclean ops' -> ops = ops'.
+  Proof.
+    intros H Hc Hc'. apply list_ext. intro k.
+    assert (E : nth_error (sg ops) k = nth_error (sg ops') k) by (rewrite H; reflexivity).
+    unfold sg in E. rewrite !nth_error_map in E.
+    destruct (nth_error ops k) as [a|] eqn:Ea, (nth_error ops' k) as [b|] eqn:Eb; simpl in E; try discriminate; auto.
+    f_equal. injection E as E1 E2 E3. destruct a as [ao aa ar], b as [bo ba br]; simpl in *. subst. f_equal.
+    apply list_ext. intro j.
+    assert (Ej : nth_error (map (fun s : slot => set_grad s None) ar) j = nth_error (map (fun s : slot => set_grad s None) br) j) by (rewrite E3; reflexivity).
+    rewrite !nth_error_map in Ej.
+    destruct (nth_error ar j) as [s|] eqn:Es, (nth_error br j) as [s'|] eqn:Es'; simpl in Ej; try discriminate; auto.
+    f_equal. assert (Ej' : set_grad s None = set_grad s' None) by congruence. clear Ej. apply slot_eq_grad; auto.
+    - apply (Hc (k, j) s). unfold get_slot_ops. simpl. rewrite Ea. exact Es.
+    - apply (Hc' (k, j) s'). unfold get_slot_ops. simpl. rewrite Eb. exact Es'.
+  Qed.
+
+  Lemma sweep_bl k : forall (ops : ops_t) e bl ops' e' bl', sweep F VO k ops e bl = Some (ops', e', bl') ->
+    forall bl2, exists bl2', sweep F VO k ops e bl2 = Some (ops', e', bl2').
+  Proof.
+    induction k as [|k IH]; intros ops e bl ops' e' bl' H bl2; simpl in *.
+    - destruct (bstep F VO 0 ops e) as [[[o1 e1] c]|]; [|discriminate]. injection H as <- <- _. eauto.
+    - destruct (bstep F VO (S k) ops e) as [[[o1 e1] c]|]; [|discriminate]. eapply IH; eauto.
+  Qed.
+
+  Lemma env_eta (e e2 : env) : e_pval e2 = e_pval e -> e_pos e2 = e_pos e -> e2 = with_pgrad e (e_pgrad e2).
+  Proof. destruct e, e2; simpl. intros -> ->. reflexivity. Qed.
+
+  (* After one completed backward(n) the graph is a fixed point of backward(n): any further
+     call (whatever the gradients are by then; same parameter values) leaves the operator list
+     unchanged, consumes no random numbers and adds exactly the same contributions cs. *)
+  Theorem backward_again (g : gstate) e n g' e' : gok g -> backward F VO g e n = Some (g', e') ->
+    exists cs, (forall p, e_pgrad e' p = fold_left (vadd VO) (cs_for p cs) (e_pgrad e p)) /\
+      forall e2, e_pval e2 = e_pval e -> exists g2 e2',
+        backward F VO g' e2 n = Some (g2, e2') /\ g_ops g2 = g_ops g' /\ g_log g2 = g_log g' /\
+        e_pval e2' = e_pval e2 /\ e_pos e2' = e_pos e2 /\
+        forall p, e_pgrad e2' p = fold_left (vadd VO) (cs_for p cs) (e_pgrad e2 p).
+  Proof.
+    intros (Hinv & Hcl & Hnd & Hlog) H. pose proof H as H0.
+    unfold backward in H. destruct (get_slot g n) as [last_n|] eqn:Eslot; [|discriminate].
+    assert (Hpre : exists g1 e1, (match s_val last_n with Some _ => Some (g, e) | None =>
+                     match forward F g e n with Some (_, g1, e1) => Some (g1, e1) | None => None end end) = Some (g1, e1) /\
+                   fpost F g e g1 e1 [n] [match aread F (g_ops g1) e n with Some v => v | None => e_pval e 0 end]
+                   \/ (g1 = g /\ e1 = e /\ s_val last_n <> None)).
+    { destruct (s_val last_n) eqn:Ev.
+      - exists g, e. right. split; [reflexivity|]. split; [reflexivity|discriminate].
+      - unfold forward in *. rewrite Eslot in *.
+        destruct (fwd F (S (fst n)) g e n) as [[[v g1] e1]|] eqn:Ef; [|discriminate].
+        exists g1, e1. left. split; [reflexivity|]. pose proof (fwd_spec F Hfw_len _ _ _ _ _ _ _ Hinv Ef) as P.
+        destruct P as (R & I1 & A & Ev'). inversion A as [|? ? ? ? Hx _]; subst. rewrite Hx. split; auto. }
+    (* in both cases: g1 extends g, the target is readable in g1 *)
+    assert (Hpre2 : exists g1 e1, (match s_val last_n with Some _ => Some (g, e) | None =>
+                     match forward F g e n with Some (_, g1, e1) => Some (g1, e1) | None => None end end) = Some (g1, e1) /\
+                    frel F g e g1 e1 [fst n] /\ ginv F (g_ops g1) /\
+                    (inner_of F (g_ops g1) (fst n) = None -> exists s1 v1, get_slot g1 n = Some s1 /\ s_val s1 = Some v1)).
+    { destruct Hpre as (g1 & e1 & [(Hp1 & R & I1 & A & Ev')|(-> & -> & Hsome)]).
+      - exists g1, e1. split; [exact Hp1|]. split; [exact R|]. split; [exact I1|]. intros Hin.
+        inversion A as [|? ? ? ? Hx _]; subst. unfold aread in Hx. unfold inner_of in Hin. unfold get_slot, get_slot_ops.
+        destruct (nth_error (g_ops g1) (fst n)) as [oi|]; [|discriminate]. rewrite Hin in Hx.
+        destruct (nth_error (o_rets oi) (snd n)) as [s1|]; [|discriminate]. destruct (s_val s1) as [v1|] eqn:Ev1; [|discriminate]. eauto.
+      - exists g, e. destruct (s_val last_n) as [v0|] eqn:Ev0; [|congruence]. split; [reflexivity|]. split; [apply frel_refl|]. split; [exact Hinv|].
+        intros _. exists last_n, v0. auto. }
+    clear Hpre. destruct Hpre2 as (g1 & e1 & Hp1 & R & I1 & Hread). rewrite Hp1 in H.
+    set (ops0 := upd_ops (g_ops g1) n (fun s => set_grad s (Some (vones VO (s_shape s))))) in *.
+    destruct (sweep F VO (fst n) ops0 e1 (g_blog g1)) as [[[ops' e1'] bl']|] eqn:Es; [|discriminate].
+    injection H as <- <-. cbn [g_ops g_log g_blog].
+    pose proof R as (Hsv & _ & Hpv1 & Hpg1 & _).
+    assert (Hsg0 : sg ops0 = sg (g_ops g1)) by (apply grad_only_sg; reflexivity).
+    assert (Hwf0 : wf_ops ops0) by (eapply sg_wf; [symmetry; exact Hsg0|]; destruct I1 as (Hw & _); exact Hw).
+    assert (Hcl1 : gclean (g_ops g1)) by (eapply sv_gclean; eauto).
+    assert (Hcf : gclear_from (S (fst n)) ops0).
+    { intros b s Hs Hle. unfold ops0 in Hs. rewrite upd_ops_get in Hs.
+      destruct (Nat.eqb_spec (fst n) (fst b)) as [E|N]; [lia|]. simpl in Hs. eapply Hcl1; eauto. }
+    destruct (sweep_clean F VO _ _ _ _ _ _ _ Hwf0 Es Hcf) as (Hsg' & Hclean' & Hpv & Hpos).
+    assert (Hops : ops' = g_ops g1) by (apply sg_gclean_eq; [congruence|exact Hclean'|exact Hcl1]).
+    destruct (sweep_indep F VO _ _ _ _ _ _ _ Es) as (cs & Ecs & Hall).
+    exists cs. split.
+    { intro p. rewrite Ecs, apply_cs_pgrad. rewrite Hpg1. reflexivity. }
+    intros e2 He2.
+    (* second call on g' : the forward part is the identity *)
+    assert (Hslot2 : exists s2, get_slot {| g_ops := ops'; g_log := g_log g1; g_blog := bl' |} n = Some s2 /\
+              (match s_val s2 with Some _ => Some ({| g_ops := ops'; g_log := g_log g1; g_blog := bl' |}, e2) | None =>
+                 match forward F {| g_ops := ops'; g_log := g_log g1; g_blog := bl' |} e2 n with Some (_, g3, e3) => Some (g3, e3) | None => None end end)
+              = Some ({| g_ops := ops'; g_log := g_log g1; g_blog := bl' |}, e2)).
+    { unfold get_slot. cbn [g_ops]. rewrite Hops.
+      assert (Hs1 : exists s1, get_slot_ops (g_ops g1) n = Some s1).
+      { pose proof (sv_slot (g_ops g) (g_ops g1) n (eq_sym Hsv)) as Hx.
+        destruct (get_slot_ops (g_ops g1) n) as [s1|]; [eauto|]. exfalso.
+        apply Hx; [unfold get_slot in Eslot; rewrite Eslot; discriminate|reflexivity]. }
+      destruct Hs1 as (s1 & Es1). exists s1. split; [exact Es1|].
+      destruct (s_val s1) as [v1|] eqn:Ev1; [reflexivity|].
+      destruct (inner_of F (g_ops g1) (fst n)) as [pp|] eqn:Ein.
+      - unfold forward, get_slot. cbn [g_ops]. rewrite Es1. cbn [fwd g_ops]. unfold inner_of in Ein.
+        destruct (nth_error (g_ops g1) (fst n)) as [oi|]; [|discriminate]. rewrite Ein. reflexivity.
+      - destruct (Hread eq_refl) as (s1' & v1' & Hg1 & Hv1'). unfold get_slot in Hg1. congruence. }
+    destruct Hslot2 as (s2 & Es2 & Hfw2).
+    unfold backward. rewrite Es2, Hfw2. cbn [g_ops g_blog g_log]. rewrite Hops. fold ops0.
+    assert (He21 : e_pval e2 = e_pval e1) by congruence.
+    destruct (sweep_bl _ _ _ _ _ _ _ (Hall e2 He21) bl') as (bl2' & Es2').
+    rewrite Es2'. eexists _, _. split; [reflexivity|]. cbn [g_ops g_log].
+    destruct (apply_cs_pval VO cs e2) as (A & B).
+    split; [first [exact Hops|symmetry; exact Hops|reflexivity]|]. split; [reflexivity|]. split; [exact A|]. split; [exact B|].
+    intro p. apply apply_cs_pgrad.
+  Qed.
 End HistoryProofs.
